@@ -65,4 +65,27 @@ ParseTarget(t, connect) ==
                   path == IF tail = <<>> THEN <<SLASH>> ELSE IF tail[1] = SLASH THEN tail ELSE <<SLASH>> \o tail
               IN IF scheme # LitHttp THEN BadTarget
                  ELSE ParseAuthority(Sub(rest, 1, e - 1), 80, "absolute", path)
+
+\* an upstream URL of a reverse-proxy route: http or https, default port by scheme
+ParseUrl(t) ==
+    LET S == {i \in 1..(Len(t) - 2) : Sub(t, i, i + 2) = LitSchemeSep} IN
+    IF S = {} THEN BadTarget
+    ELSE LET s == MinOf(S)
+             scheme == Lower(Sub(t, 1, s - 1))
+             rest == Sub(t, s + 3, Len(t))
+             E == {i \in 1..Len(rest) : rest[i] = SLASH \/ rest[i] = QM \/ rest[i] = HASH}
+             e == IF E = {} THEN Len(rest) + 1 ELSE MinOf(E)
+             tail == Sub(rest, e, Len(rest))
+             path == IF tail = <<>> THEN <<SLASH>> ELSE IF tail[1] = SLASH THEN tail ELSE <<SLASH>> \o tail
+         IN IF scheme = LitHttp THEN ParseAuthority(Sub(rest, 1, e - 1), 80, "absolute", path)
+            ELSE IF scheme = LitHttps THEN ParseAuthority(Sub(rest, 1, e - 1), 443, "absolute", path)
+            ELSE BadTarget
+\* the authority exactly as written in the URL (host[:port]), for the Host header rewrite
+UrlAuthority(t) ==
+    LET s == MinOf({i \in 1..(Len(t) - 2) : Sub(t, i, i + 2) = LitSchemeSep})
+        rest == Sub(t, s + 3, Len(t))
+        E == {i \in 1..Len(rest) : rest[i] = SLASH \/ rest[i] = QM \/ rest[i] = HASH}
+        a == Sub(rest, 1, (IF E = {} THEN Len(rest) + 1 ELSE MinOf(E)) - 1)
+        at == FindLastByte(a, AT, 1, Len(a))
+    IN Sub(a, at + 1, Len(a))
 =============================================================================
